@@ -74,11 +74,22 @@ class C19(PropBase):
                                "variant": v})
                     return
             o = [l for l in ci.get("obs", []) if l.startswith(("row", "enddump"))]
-            for p, q in zip(b, o):
-                d = [k for k in core.lines_agree(p, q) if k != "dist"]
-                if d:
-                    self.fail(rep, f"-O changes more than the distance: {d}", {"ops": ops[:3] + ["..."], "lines": [l if isinstance(l, str) else l.hex() for l in lines[:50]]})
+            # .. and in a process in which no observer position was ever set (what an -O value that does not parse leaves behind:
+            # main() logs the error and goes on) - "garbage" and "1,2,3" are given, and rejected, on the way
+            nob = {k: v for k, v in base.items() if k != "observer"}
+            ops_n = ["reset", gen.cfg_op(**{**nob, "observer": rng.choice(["garbage", "52.66;-8.62", "1,2,3", "91,0x"])}), "case none"] + gen.seg(lines) + ["dump"]
+            impl_n, _, model_n = run.execute(ops_n, model=driver_ok)
+            self.corr(rep, impl_n, model_n, {"history": hi, "observer": "never set"})
+            on = [l for l in core.split_cases(impl_n).get("none", []) if l.startswith(("row", "enddump"))]
+            for other, what in ((o, "another -O"), (on, "an -O that does not parse (no observer position)")):
+                if len(other) != len(b):
+                    self.fail(rep, f"{what} changes which aircraft are in the table ({len(b)} rows -> {len(other)})", {"ops": ops_n if other is on else ops[:3] + ["..."]})
                     return
+                for p, q in zip(b, other):
+                    d = [k for k in core.lines_agree(p, q) if k != "dist"]
+                    if d:
+                        self.fail(rep, f"{what} changes more than the distance: {d}", {"ops": ops_n if other is on else ops[:3] + ["..."], "lines": [l if isinstance(l, str) else l.hex() for l in lines[:50]]})
+                        return
             if any(" lat=" in l and " lat=0.0000000000" not in l for l in b):
                 rep.nontriv(("opts", hi))
         # the logging options with repeated frames and a silent aircraft: what is logged (or not logged twice) must not decide
